@@ -7,6 +7,18 @@ CHECKS = {
    text="Seeded exploration of the whole public API (all resource kinds, all built-in effects incl. nested feedback, static + streaming sounds, every handle command with typical / boundary / extreme finite arguments, drops, sample-rate changes) interleaved with device callbacks of arbitrary size and 1..8 channels, under always-on monitors: panic, heap traffic and CPU-time watchdog in the audio role, sample finiteness / range / channel layout, mono == mean of a 2-channel twin world. Sampling, not proof: the input space is unbounded, so exploration with many short diverse runs is the right level.",
    note="Trusts the counting global allocator (armed by a thread-local only while the audio role runs), catch_unwind and /proc CPU accounting; SimBackend replaces the device; internal_buffer_size >= 1; rates capped at 1000, clock speeds at 1e6 ticks/s.",
    technique="deterministic simulation: seeded op-sequence generation against the real mixer behind a simulated device, runtime monitors as oracle, twin-world differential for the mono fold-down"),
+ "C04": dict(level="exploration", design="3 C04",
+   text="The real Box<dyn Sound> of a static sound is driven chunk by chunk on a simulated audio clock next to an executable reference (integer transport + 4-point Hermite at the accumulated position). Seeded exploration over length, slice, start, loop region, reverse, rate, sample-rate pair, chunk partition and seek / loop commands at chunk boundaries, plus (thorough) the complete small-scope space length <= 6 as a workload source. Bit-exact comparison at rate 1, tolerance 2e-5 otherwise; poison frames outside the slice; end detection and reported position against the model.",
+   note="Reference model written from the documentation and the property text; Info is an empty MockInfo; after a seek only what the property promises (within one frame) is demanded. One open known finding: rate 1 is not bit-exact at sample rates with sr*(1/sr) != 1.0 (those rates are then not generated for the bit-exact clause).",
+   technique="deterministic simulation of the sound on a simulated audio clock against an executable reference model (refinement check), seeded + small-scope workloads"),
+ "C09": dict(level="exploration", design="3 C09",
+   text="Differential simulation: one generated audio content / settings / command history is played by the static and by the streaming implementation side by side on the same simulated audio clock; the streaming decoder thread is a gated simulator task run until it sleeps or ends before every callback, with generated packet sizes and seek granularities. Outputs must be bit-identical, states identical at every callback, positions within one frame until the sound ends.",
+   note="Decoder is a scripted stub; the real DecodeScheduler loop runs on its own (gated) thread. 'Keeps ahead' is enforced by construction (chunks <= 200 frames, rate <= 3).",
+   technique="deterministic simulation with a gated decoder thread; differential (static vs streaming) oracle in lock-step"),
+ "C11": dict(level="exploration", design="3 C11",
+   text="Twin-world simulation: a generated scene with constant parameters (all track kinds, sends, every built-in effect incl. nested delay feedback, static and streaming sounds at any rate / loop / pan) is rendered in three worlds that differ only in internal buffer size (1..4096) and callback partition (1-frame, non-multiples, zero-frame, one huge callback). Streams are compared frame by frame: bit-for-bit without recursive effects / spatialization, |d| <= 1e-6 with them.",
+   note="Constant parameters only (no modulators, tweens, delayed or clock starts), as the property states; streaming decoders are kept ahead by the gate scheduler.",
+   technique="deterministic simulation, metamorphic twin worlds over the device's callback partition and the configured buffer size"),
 }
 NA = [
  ("C13", "pure DSP laws of (parameters, sample rate, input signal): no schedule, clock, fault or interleaving for a simulator to control; see DESIGN.md section 5"),
